@@ -1,4 +1,6 @@
 import GSProofs.Lemmas.MsgQueueReach
+import GSProofs.Lemmas.MsgQueueLog2
+import GSProofs.C13
 /-!
 # C15 — Memory accounted to a peer matches its unsent response data
 
@@ -103,6 +105,48 @@ theorem exit_zero {s : MQ.State} (h : Reachable pick peer mr mt mp s) (hpc : s.p
   exact (releasePeer_own hp hinv s.peer).2.2.2
 
 end
+
+/-- The allocator events recorded in the log of a reachable state are exactly the events of an
+    allocator history from `NewAllocator`, and the allocator is in the state after that history. -/
+theorem log_is_allocator_history {pick : Pick} {peer mr mt mp : Nat} {s : MQ.State}
+    (h : Reachable pick peer mr mt mp s) :
+    ∃ ops : List Alloc.Op, s.alloc = (Alloc.run pick (Alloc.init mt mp) ops).1 ∧
+      memOf s.log = (Alloc.run pick (Alloc.init mt mp) ops).2 := by
+  obtain ⟨acts, rfl⟩ := h
+  obtain ⟨ops, h1, h2⟩ := (runActs_ext pick (init peer mr mt mp) acts).ops
+  have e : memOf (MQ.init peer mr mt mp).log = [] := rfl
+  rw [e, List.nil_append] at h2
+  exact ⟨ops, h1, h2⟩
+
+section
+variable {pick : Pick} (hp : Admissible pick) {peer mr mt mp : Nat} (ht : mt < W) (hm : mp < W)
+include hp ht hm
+
+/-- **Exactly once, as sums over the whole history** (partial = until the queue goroutine exits):
+    the bytes ever granted to the peer = the bytes ever released by it + the bytes still held by
+    queued builders, the message in flight and granted-but-not-yet-built reservations.  Together
+    with C13 `release_clamped` (a release never exceeds what is accounted) no byte is released twice
+    and none is forgotten. -/
+theorem exactly_once_sums {s : MQ.State} (h : Reachable pick peer mr mt mp s) (hne : s.pc ≠ .exited) :
+    grantedSum s.peer (memOf s.log) =
+      releasedSum s.peer (memOf s.log) + (heldBuilders s + heldInFlight s + heldGranted s) := by
+  obtain ⟨ops, h1, h2⟩ := log_is_allocator_history h
+  have hl := GS.C13.ledger_sums hp ht hm ops s.peer
+  rw [← h1, ← h2] at hl
+  have := exactly_once_partial hp ht hm h hne
+  omega
+
+end
+
+/-- **Reserved first.**  On every schedule: whenever a build function ran for a transaction that
+    carries bytes (`built ticket … size …` with `size > 0`), the allocator had granted that
+    transaction's reservation (`granted peer ticket …` is in the history) — data never enters a
+    builder on the strength of a refused or missing reservation. -/
+theorem reserved_first {pick : Pick} {peer mr mt mp : Nat} {s : MQ.State} (h : Reachable pick peer mr mt mp s)
+    (t topic size used : Nat) (hb : MQ.Event.built t topic size used ∈ s.log) (hs : size > 0) :
+    ∃ a, MQ.Event.mem (.granted s.peer t a) ∈ s.log := by
+  obtain ⟨acts, rfl⟩ := h
+  exact ((runActs_ext pick (init peer mr mt mp) acts).rfw (init_RFW peer mr mt mp)).built t topic size used hb hs
 
 /-- **(S) is false after the queue goroutine has exited** (known finding `dead-queue-leak`):
     Shutdown, the loop takes the done branch, the goroutine exits; then a transaction with a
